@@ -68,6 +68,14 @@ def analyse_switch_fn(program, rep):
         loads = [i for i, e in _calls(tr) if norm(e.sym.node) == f'{th}()']
         clears = [i for i, e in _calls(tr) if norm(e.sym.node.func)
                   == f'{th}.clear']
+        for i, e in _calls(tr):
+            fn_ = norm(e.sym.node.func)
+            if fn_.endswith('.clear') and fn_ != f'{th}.clear' \
+                    and 'handle' in fn_:
+                flag('order', e.node, f'switch() clears {fn_[:-6]}: it '
+                     'cannot know which handle the running loop is leaving '
+                     '(a custom loop is not the default loop); clear_current '
+                     'must travel to the loop inside SwitchWorld')
         if len(loads) != 1:
             flag('order', f.node, f'the target handle is loaded {len(loads)} '
                  'times in switch()')
@@ -150,6 +158,14 @@ def analyse_switch_fn(program, rep):
             if e.kind == 'raise':
                 rc = e.sym.node
                 break
+        if isinstance(rc, ast.Call):
+            a_ = list(rc.args)
+            kw_ = {k.arg: k.value for k in rc.keywords}
+            cc = kw_.get('clear_current', a_[1] if len(a_) > 1 else None)
+            if cc is None or norm(cc) != 'clear_current':
+                flag('order', rn, 'switch() does not hand its clear_current '
+                     'flag to SwitchWorld unchanged: the handle being left '
+                     'is not cleared (or the wrong one is)')
         out_paths.append({'conds': conds, 'raise': rc, 'clears': clears,
                           'load': loads[0], 'node': rn})
     return f, out_paths, bad
@@ -429,3 +445,9 @@ def run(program, rep, tier):
     same_instance(program, rep, f, spaths)
     current_rules(program, rep)
     instance_state(program, rep, 'C13.held-events')
+    # on_switch_in / load-time callbacks are released once, in order (C04)
+    from rules import c04
+    n0 = len(rep.obs)
+    c04.check_release(program, rep)
+    for o in rep.obs[n0:]:
+        o.rule = o.rule.replace('C04.', 'C13.released-')
